@@ -150,7 +150,7 @@ func ilAsRT(cs *ilCase, s int) *rtCase {
 }
 
 func interleaveCheck(c *h.Ctx) {
-	n := c.N(400, 8000)
+	n := c.N(300, 8000)
 	for i := 0; i < n; i++ {
 		cs := genIL(c)
 		c.Eval("il" + caseKey(cs))
